@@ -149,6 +149,6 @@ pub fn def() -> PropertyDef {
              MPEG-2 ADTS / channel configuration 0, RFC-invalid Opus counts, half-tick ties, timestamps >= 2^53 ticks, garbage as non-first frame",
             "after an unconstrained call the model adopts the implementation's decision and keeps judging",
         ],
-        subs: vec![Box::new(PSub { name: "contract_model", quick: 60000, thorough: 2000000, strat, eval })],
+        subs: vec![Box::new(PSub { name: "contract_model", quick: 60000, thorough: 2000000, strat, eval }), Box::new(LSub { name: "bursts_and_long", cases: burst_cases, eval, note: BURST_NOTE })],
     }
 }
